@@ -303,6 +303,10 @@ def order_variants(names, rnd):
     sup = ["u0"] + perm[:1] + ["u1"] + perm[1:] + ["u2"]
     out.append(" ; ".join(sup))
     out.append(" ".join(perm + perm[:1] + ["u9"] + perm[-1:]))
+    # unused names together with a strict subset of the formula's names (the other names are not listed)
+    if len(perm) >= 2:
+        out.append(" ".join(["u5"] + perm[: max(1, len(perm) // 2)] + ["u6"]))
+        out.append(perm[-1] + " u7")
     out.append("  $ ".join(reversed(names)) + " .. & and ( 12 \"comment\" ")
     return out
 
@@ -677,6 +681,8 @@ def c10(run):
             camp.add(text, o1, filt=flt, channel="file")
         camp.add(text, rnd.choice(ovs), vars_=True, table=False)
         camp.add(text, rnd.choice(ovs), vars_=True, table=True, filt="True")
+        # -v lists the satisfying rows whatever the row filter of the table is
+        camp.add(text, rnd.choice(ovs), vars_=True, table=rnd.random() < 0.5, filt="False")
         camp.add(text, rnd.choice(ovs), model=True, filt=rnd.choice(["Any", "True"]))
         if t:
             for o in ovs:
